@@ -262,10 +262,15 @@ pub fn hour_to_time(params: &Params, prayer: Prayer, hour: f64) -> NaiveTime {
 }
 
 fn round_secs(hour: &mut f64, min: &mut f64, sec: &mut f64, sec_cap: f64) {
+    // Round on the truncated minute: re-deriving it from `hour + 1/60` skips a minute
+    // when `hour` lies a few ulps below a whole minute.
+    *min = min.floor();
     if *sec >= sec_cap {
-        *hour += 1. / MIN_SEC_PER_HR_MIN;
+        *min += 1.;
+        if *min >= MIN_SEC_PER_HR_MIN {
+            *min = 0.;
+            *hour = hour.floor() + 1.;
+        }
     }
-
-    *min = (*hour - hour.floor()) * MIN_SEC_PER_HR_MIN;
     *sec = 0.;
 }
